@@ -377,7 +377,8 @@ impl<'a> ColorGlyph<'a> {
                     painter.push_clip_box(rect);
                 }
 
-                let mut decycler = PaintDecycler::default();
+                let mut decycler =
+                    PaintDecycler::default().with_visit_budget(traversal::MAX_TRAVERSAL_VISITS);
                 let mut cycle_guard = decycler.enter(*paint_id)?;
                 traverse_with_callbacks(
                     &resolve_paint(&instance, paint)?,
